@@ -316,7 +316,15 @@ def go_build_harness(ctx, pkg, name=None, tags="verif", race=False, test=False):
     if race:
         cmd.append("-race")
     cmd += ["-o", out, "./" + pkg]
-    rc, so, se = sh(cmd, cwd=HARNESS, env=go_env(), timeout=1500)
+    hdir = HARNESS
+    if os.path.realpath(REPO) != "/repo":
+        # scratch-worktree mode (VERIF_REPO=<dir>): private copy of the harness with the replace redirected
+        hdir = os.path.join(ctx.scratch, "harness-copy")
+        if not os.path.exists(hdir):
+            shutil.copytree(HARNESS, hdir)
+            gm = open(os.path.join(hdir, "go.mod")).read().replace("=> /repo", "=> " + os.path.realpath(REPO))
+            open(os.path.join(hdir, "go.mod"), "w").write(gm)
+    rc, so, se = sh(cmd, cwd=hdir, env=go_env(), timeout=1500)
     if rc != 0:
         raise Inconclusive("harness build failed: %s\n%s" % (" ".join(cmd), (so + se)[-6000:]))
     return out
